@@ -129,7 +129,7 @@ func message(sb *strings.Builder, md protoreflect.MessageDescriptor, o Opt, ind 
 func field(sb *strings.Builder, fd protoreflect.FieldDescriptor, o Opt, ind string) {
 	fmt.Fprintf(sb, "%sfield %s num=%d idx=%d kind=%v card=%v presence=%v packed=%v list=%v map=%v ext=%v weak=%v optkw=%v json=%q hasjson=%v text=%q", ind,
 		fd.FullName(), fd.Number(), fd.Index(), fd.Kind(), fd.Cardinality(), fd.HasPresence(), fd.IsPacked(), fd.IsList(), fd.IsMap(), fd.IsExtension(), fd.IsWeak(), fd.HasOptionalKeyword(), fd.JSONName(), fd.HasJSONName(), fd.TextName())
-	fmt.Fprintf(sb, " utf8=%v lazy=%v", univ.EnforceUTF8(fd), univ.IsLazy(fd))
+	fmt.Fprintf(sb, " utf8=%v lazy=%v", univ.ImplEnforceUTF8(fd), univ.IsLazy(fd))
 	if fd.HasDefault() {
 		fmt.Fprintf(sb, " default=%s", univ.FormatValue(fd.Default()))
 		if ev := fd.DefaultEnumValue(); ev != nil {
